@@ -1729,7 +1729,7 @@ class Surface(SplineGeometry):
         """
         if self.tessellator is None:
             return list()
-        if not self.tessellator.is_tessellated():
+        if not self._is_tessellated():
             self.tessellate()
         return self.tessellator.vertices
 
@@ -1743,9 +1743,15 @@ class Surface(SplineGeometry):
         """
         if self.tessellator is None:
             return list()
-        if not self.tessellator.is_tessellated():
+        if not self._is_tessellated():
             self.tessellate()
         return self.tessellator.faces
+
+    def _is_tessellated(self):
+        # The tessellation component holds the mesh. A component which has been set to several surfaces holds the mesh of the
+        # surface which was tessellated last: it is the mesh of this surface if this surface has put it there
+        return self._tsl_component.is_tessellated() and \
+            getattr(self, '_tsl_vertices', None) is self._tsl_component.vertices
 
     @property
     def trims(self):
@@ -2024,7 +2030,7 @@ class Surface(SplineGeometry):
                 kwargs.pop(kw)
 
         # No need to re-tessellate if we have already tessellated the surface with the same arguments
-        if self._tsl_component.is_tessellated() and not force_tessellate and kwargs == getattr(self, '_tsl_args', kwargs):
+        if self._is_tessellated() and not force_tessellate and kwargs == getattr(self, '_tsl_args', kwargs):
             return
 
         # The tessellation needs a grid of sample_size_u x sample_size_v points; the points of an iso-parametric evaluation
@@ -2036,6 +2042,7 @@ class Surface(SplineGeometry):
         self._tsl_component.tessellate(self.evalpts, size_u=self.sample_size_u, size_v=self.sample_size_v,
                                        trims=self.trims, domain=self.domain, **kwargs)
         self._tsl_args = dict(kwargs)  # a request with other arguments (e.g. vertex_spacing) is another tessellation
+        self._tsl_vertices = self._tsl_component.vertices  # the mesh which the component holds now is the mesh of this surface
 
         # Re-evaluate vertex coordinates
         for idx in range(len(self._tsl_component.vertices)):
